@@ -285,6 +285,19 @@ def object_key_order():
                 [("o1", "P0", "d"), ("o2", "P1", "o")], ["object-key-order"])
 
 
+def wrong_arity_calls():
+    """a nada function called with too few / too many arguments, or with a keyword for one of two parameters only"""
+    f = {"k": "def", "f": "sub2", "params": [("x", SI), ("y", SI)], "ret": SI,
+         "body": [{"k": "bin", "x": "d", "op": "OSub", "a": "x", "b": "y"}], "res": "d", "form": "decorator"}
+    base = [inp("a", "a", SI), inp("b", "b", SI, "P1"), inp("c", "c", SI), f]
+    out = []
+    for tag, args, kw in (("too-few", ["a"], []), ("too-many", ["a", "b", "c"], []), ("keyword-only-one-of-two", [], [("y", "b")]),
+                          ("one-positional-and-too-many-keywords", ["a"], [("y", "b"), ("x", "c")])):
+        out.append(prog(list(base) + [{"k": "call", "x": "r", "f": "sub2", "args": args, "kwargs": kw}], [("o", "P0", "r")],
+                        ["wrong-arity", tag, "must-reject"]))
+    return out
+
+
 def objects_same_fields_other_order():
     """two objects (and two n-tuples) with the same field names and types written in different orders, mixed secrecy"""
     PI = S("Public", "Int")
@@ -407,4 +420,4 @@ def all_families():
             inner_public_secret(), inner_int_uint(), untruthful_annotation(), secret_flows(), signatures(), output_of_function(),
             dup_inputs("same-party"), dup_inputs("same-party-diff-type"), dup_inputs("diff-party"), dup_inputs("diff-party-one-dead"),
             dup_inputs("same-party-one-dead"), literal_array_inner(), object_key_order(), literal_divisions(),
-            closure_factory(), kwargs_reordered(), unzip_compound(), reduce_public_seed(), rebound_closure_variable(), explicit_types_reordered(), objects_same_fields_other_order()] + rejected_functions()
+            closure_factory(), kwargs_reordered(), unzip_compound(), reduce_public_seed(), rebound_closure_variable(), explicit_types_reordered(), objects_same_fields_other_order()] + rejected_functions() + wrong_arity_calls()
